@@ -623,6 +623,8 @@ class ModelTrio:
 
     @staticmethod
     def fail_after(seconds: typing.Any) -> _FailAfter:
+        if type(seconds) in (int, float) and seconds < 0:
+            raise ValueError("`seconds` must be non-negative")  # as the real trio.fail_after does
         return _FailAfter(seconds, TooSlowError, inf_is_none=True)
 
 
@@ -663,10 +665,15 @@ class _TLock:
 ON_THREAD_EVENT_SET: typing.Optional[typing.Callable[[typing.Any], None]] = None  # installed by scen.make_pool (sync pools)
 
 
+ON_THREAD_EVENT_NEW: typing.Optional[typing.Callable[[typing.Any], None]] = None  # set by C08.wakeup_race
+
+
 class _TEvent:
     def __init__(self) -> None:
         self._flag = False
         self.waits: list[typing.Any] = []
+        if ON_THREAD_EVENT_NEW is not None:
+            ON_THREAD_EVENT_NEW(self)
 
     def set(self) -> None:
         # the instant another thread may be made runnable: what it is going to read must be in place now
